@@ -14,6 +14,15 @@ BASELINE_OFF = ('cd /repo && env -u ELECTRUMX_VERIF /venv/bin/python -m pytest -
 _IDX_NOTE = ('Trusted: the fake plyvel stand-in (bound to real LevelDB by the conformance run), '
              'the reference indexer; only the default schedule is used here (schedules: C06/C07).')
 CHECKS = {
+    'C16': ('exploration',
+            'exhaustive enumeration of method x argument tuples over a JSON alphabet, over the wire into real sessions',
+            'All 24 protocol methods x the full product of a 54-value index-aware JSON alphabet for '
+            'arity 0..2, reduced alphabets for arity 3 and 4, too many arguments and by-name forms, '
+            'as JSON bytes through RSTransport into a real ElectrumX session with a second subscribed '
+            'client: never INTERNAL_ERROR, exactly one reply, refused requests leave subscriptions '
+            'untouched and caches only gain correct entries; differential run for the other client.',
+            'aiorpcx JSON-RPC layer trusted; cost limits disabled so throttling does not interfere; '
+            'cache checks read SessionManager cache attributes (named by the property).', '3/C16'),
     'C06': ('exploration',
             'stateless schedule exploration with sliced worker jobs: every cancellation instant x after-cancel interleavings up to a preemption bound',
             'Six scenario shapes; the stop (shutdown_event + task cancellation) is placed at every '
